@@ -44,6 +44,7 @@ type JobCfg struct {
 	PoolAny       bool
 	NoIfConv      bool
 	MaxPaths      int
+	MaxWallS      int // wall-clock budget of the job; when it is used up the job is cut and reported as truncated (inconclusive)
 	Witnesses     int // max witnesses kept for native validation
 	QueryTimeoutMs int
 	Redirect       map[string]string // callee -> harness function standing in for it (a summary justified elsewhere)
@@ -159,6 +160,15 @@ var solverBin = "z3-new"
 
 var progress = os.Getenv("GOSYM_PROGRESS") != ""
 
+// defaultQueryTimeoutMs: budget of one escalated solver query (GOSYM_QUERY_TIMEOUT_MS overrides); an
+// undecided query makes the run inconclusive
+func defaultQueryTimeoutMs() int {
+	if v, _ := strconv.Atoi(os.Getenv("GOSYM_QUERY_TIMEOUT_MS")); v > 0 {
+		return v
+	}
+	return 120000
+}
+
 func runJob(prog *ssa.Program, cfg *JobCfg, nworkers int) *JobResult {
 	cfg.defaults()
 	t0 := time.Now()
@@ -185,6 +195,9 @@ func runJob(prog *ssa.Program, cfg *JobCfg, nworkers int) *JobResult {
 			defer wg.Done()
 			w := &worker{id: id, tf: NewTF(), solver: NewSolver(solverBin, "-in")}
 			w.solver.timeout = cfg.QueryTimeoutMs
+			if w.solver.timeout == 0 {
+				w.solver.timeout = defaultQueryTimeoutMs()
+			}
 			if tp := os.Getenv("GOSYM_TEE"); tp != "" && id == 0 {
 				w.solver.tee, _ = os.Create(tp)
 			}
@@ -263,7 +276,7 @@ func runJob(prog *ssa.Program, cfg *JobCfg, nworkers int) *JobResult {
 				if progress && res.Paths%200 == 0 {
 					fmt.Fprintf(os.Stderr, "  progress %s: paths=%d work=%d active=%d status=%v last=%s/%s decs=%s\n", cfg.Name, res.Paths, len(work), active, res.ByStatus, pr.Status, pr.Detail, pr.DecStr)
 				}
-				if res.Paths >= cfg.MaxPaths {
+				if res.Paths >= cfg.MaxPaths || (cfg.MaxWallS > 0 && time.Since(t0) > time.Duration(cfg.MaxWallS)*time.Second) {
 					stop = true
 					res.Truncated = true
 				}
